@@ -5,6 +5,7 @@ package filtering
 import (
 	"crypto/sha256"
 	"encoding/hex"
+	"errors"
 	"fmt"
 	"math/rand"
 	"sort"
@@ -143,6 +144,7 @@ func c19fGen(rng *rand.Rand) c19fDom {
 type c19fSeen struct {
 	Name      string `json:"question_name"`
 	NQuestion int    `json:"questions"`
+	Failed    bool   `json:"service_returned_error,omitempty"`
 }
 
 // c19fService is a faithful in-memory lookup service.
@@ -152,6 +154,11 @@ type c19fService struct {
 	set    map[string]bool
 	by     map[string][]string
 	log    []c19fSeen
+	// failLeft is the number of coming CheckHost calls during which the
+	// service answers every request with an error; failedNow counts the
+	// requests it failed during the current call.
+	failLeft  int
+	failedNow int
 }
 
 func c19fNewService(suffix string, names []string) *c19fService {
@@ -174,6 +181,15 @@ func (u *c19fService) Close() error    { return nil }
 
 func (u *c19fService) Exchange(req *dns.Msg) (*dns.Msg, error) {
 	seen := c19fSeen{NQuestion: len(req.Question)}
+	if u.failLeft > 0 {
+		if len(req.Question) > 0 {
+			seen.Name = req.Question[0].Name
+		}
+		seen.Failed = true
+		u.log = append(u.log, seen)
+		u.failedNow++
+		return nil, errors.New("c19: injected failure of the lookup service (i/o timeout)")
+	}
 	resp := (&dns.Msg{}).SetReply(req)
 	var strs []string
 	if len(req.Question) > 0 {
@@ -362,6 +378,12 @@ func TestVerifC19Filter(t *testing.T) {
 			setts := &Settings{ProtectionEnabled: true, FilteringEnabled: rng.Intn(2) == 0,
 				SafeBrowsingEnabled: rng.Intn(4) != 0, ParentalEnabled: rng.Intn(4) != 0}
 			sb.log, pc.log = nil, nil
+			for _, u := range []*c19fService{sb, pc} {
+				if u.failLeft == 0 && rng.Intn(100) < 6 {
+					u.failLeft = 1 + rng.Intn(2)
+				}
+				u.failedNow = 0
+			}
 			wantSB, wantPC := sb.want(d), pc.want(d)
 			var res Result
 			var cerr error
@@ -377,6 +399,12 @@ func TestVerifC19Filter(t *testing.T) {
 				step.Err = cerr.Error()
 			}
 			trace = append(trace, step)
+			failedNow := sb.failedNow + pc.failedNow
+			for _, u := range []*c19fService{sb, pc} {
+				if u.failLeft > 0 {
+					u.failLeft--
+				}
+			}
 			wit := func(extra map[string]any) any {
 				w := map[string]any{
 					"safe_browsing_database_names": sb.names, "parental_database_names": pc.names,
@@ -416,6 +444,9 @@ func TestVerifC19Filter(t *testing.T) {
 			switch {
 			case panicked != nil:
 				rep.Violate("check-panicked", fmt.Sprintf("CheckHost(%q) panicked: %v", d.Typed, panicked), wit(nil))
+			case failedNow > 0:
+				rep.Unspec("outcome of a CheckHost during which a lookup service returned an error")
+				rep.Event("checks_during_service_failure")
 			case cerr != nil:
 				rep.Unspec("CheckHost returned an error although the services answered")
 			default:
@@ -460,7 +491,7 @@ func TestVerifC19Filter(t *testing.T) {
 	}
 	ev := rep.Events
 	for _, k := range []string{"lookup_requests_seen:safe-browsing", "lookup_requests_seen:parental",
-		"blocked_host_typed_with_upper_case", "not_blocked", "blocked:" + FilteredParental.String(),
+		"blocked_host_typed_with_upper_case", "not_blocked", "checks_during_service_failure", "blocked:" + FilteredParental.String(),
 		"blocked:" + FilteredSafeBrowsing.String()} {
 		if ev[k] == 0 && !rep.Violated() {
 			rep.Inconcl("event never observed: " + k)
